@@ -348,6 +348,7 @@ class Check:
             "depth": res.depth,
             "wall_s": round(res.wall_s, 1),
             "result": res.error or "no error",
+            "exhaustive_within_stated_bounds": res.error is None and not kw.get("simulate"),
             "action_coverage": res.coverage,
         }
         self.mc_runs.append(rec)
